@@ -292,6 +292,101 @@ fn judge_with(pairs: bool) -> impl Fn(&Prog, &mut Ctx) + Sync + Send {
     }
 }
 
+/// (h) the numbers themselves do not matter, only their order: a three-line
+/// program that is entered from direct statements (GOTO / GOSUB / RUN n /
+/// RESTORE n) and branches within itself behaves the same at every ascending
+/// triple of boundary line numbers as at 10, 20, 30.
+struct BoundaryNumbers;
+
+const BOUNDARY_NUMS: [u32; 9] = [0, 1, 2, 9, 10, 32768, 65527, 65528, 65529];
+
+fn boundary_triples() -> Vec<(u32, u32, u32)> {
+    let mut v = vec![];
+    for (i, a) in BOUNDARY_NUMS.iter().enumerate() {
+        for (j, b) in BOUNDARY_NUMS.iter().enumerate().skip(i + 1) {
+            for c in BOUNDARY_NUMS.iter().skip(j + 1) {
+                v.push((*a, *b, *c));
+            }
+        }
+    }
+    v
+}
+
+fn boundary_program(a: u32, b: u32, c: u32) -> Vec<String> {
+    vec![
+        format!("{} DATA 1:PRINT \"a\";", a),
+        format!("{} DATA 2:PRINT \"b\";:IF K<2 THEN K=K+1:ON K GOTO {},{}", b, c, a),
+        format!("{} DATA 3:PRINT \"c\";:IF G=1 THEN G=0:RETURN", c),
+    ]
+}
+
+fn boundary_directs(t: u32) -> Vec<Vec<String>> {
+    vec![
+        vec![format!("GOTO {}", t)],
+        vec![format!("K=5:GOTO {}", t)],
+        vec![format!("G=1:GOSUB {}:PRINT \"back\"", t)],
+        vec![format!("K=5:G=1:GOSUB {}:PRINT \"back\"", t)],
+        vec![format!("RUN {}", t)],
+        vec![format!("RESTORE {}:READ Q:PRINT Q", t)],
+        vec![format!("READ Q:RESTORE {}:READ R,S:PRINT Q;R;S", t)],
+        vec![format!("IF 1 THEN {}", t)],
+        vec![format!("ON 1 GOSUB {}:PRINT \"back\"", t), "PRINT K;G".to_string()],
+        vec!["RUN".to_string(), format!("G=1:GOSUB {}", t), "CONT".to_string()],
+        vec![format!("DELETE {}", t), "RUN".to_string()],
+    ]
+}
+
+impl Sweep for BoundaryNumbers {
+    fn name(&self) -> String {
+        "boundary-line-numbers".into()
+    }
+    fn shards(&self) -> usize {
+        boundary_triples().len()
+    }
+    fn run_shard(&self, shard: usize, ctx: &mut Ctx) {
+        let (a, b, c) = boundary_triples()[shard];
+        let nums = [a, b, c];
+        let back = move |n: u32| -> u32 {
+            if n == a {
+                10
+            } else if n == b {
+                20
+            } else if n == c {
+                30
+            } else {
+                n
+            }
+        };
+        for ti in 0..3 {
+            let base_d = boundary_directs([10, 20, 30][ti]);
+            let var_d = boundary_directs(nums[ti]);
+            for (bd, vd) in base_d.iter().zip(var_d.iter()) {
+                let desc = format!("[{}] then {:?}  vs the same at 10, 20, 30", boundary_program(a, b, c).join(" / "), vd);
+                if !ctx.begin(&desc) {
+                    continue;
+                }
+                let x = session_text(&boundary_program(10, 20, 30), bd, &replies());
+                let y = session_text(&boundary_program(a, b, c), vd, &replies());
+                match (x, y) {
+                    (Ok(x), Ok(y)) => {
+                        let ym = map_lines(&y.0, &back);
+                        if x.1 {
+                            ctx.skip("baseline does not terminate");
+                        } else if y.1 {
+                            ctx.violation("boundary-numbers/does-not-terminate", format!("at 10, 20, 30: {:?}; here: cut after {:?}", x.0, y.0));
+                        } else if x.0 != ym {
+                            ctx.violation("boundary-numbers/transcript-differs", format!("at 10, 20, 30: {:?}; here: {:?}", x.0, ym));
+                        }
+                        ctx.nontrivial(hash64(&("boundary", ti, &x.0)));
+                    }
+                    (Err(pn), _) | (_, Err(pn)) => ctx.violation("boundary-numbers/panic", pn),
+                }
+            }
+        }
+        ctx.sample();
+    }
+}
+
 fn sweep0(n: usize, level: Level) -> Box<dyn Sweep> {
     Box::new(ProgSweep { label: "layout-single-from-line-0".into(), n, level, judge: Box::new(judge_with(false)), verdict_on_crash: false })
 }
@@ -313,6 +408,7 @@ impl Check for C20 {
     fn sweeps(&self, tier: Tier) -> Vec<Box<dyn Sweep>> {
         match tier {
             Tier::Quick => vec![
+                Box::new(BoundaryNumbers),
                 sweep0(2, Level::Medium),
                 sweep(1, Level::Full, true),
                 sweep(2, Level::Full, false),
@@ -321,6 +417,7 @@ impl Check for C20 {
                 sweep(2, Level::Mixed, false),
             ],
             Tier::Thorough => vec![
+                Box::new(BoundaryNumbers),
                 sweep0(2, Level::Full),
                 sweep0(3, Level::Core),
                 sweep(1, Level::Full, true),
@@ -336,7 +433,7 @@ impl Check for C20 {
     fn meta(&self, tier: Tier) -> Meta {
         Meta {
             bound: match tier {
-                Tier::Quick => "programs of the C01 space: N=1 full alphabet with every pair of layout transformations, N=2 full with every single transformation, N=2 medium with every pair, N=3 core with every single one, N=2 over the mixed alphabet (DATA/READ/RESTORE, DEF FN, arrays, strings, SWAP, CLEAR, ERASE, INPUT) with every single one; transformations: REM / ' / empty filler line at every gap, empty statement at every statement boundary, split of a multi-statement line at every boundary, direct statement over empty / original / larger stored program, direct list vs one-line program".into(),
+                Tier::Quick => "programs of the C01 space: N=1 full alphabet with every pair of layout transformations, N=2 full with every single transformation, N=2 medium with every pair, N=3 core with every single one, N=2 over the mixed alphabet (DATA/READ/RESTORE, DEF FN, arrays, strings, SWAP, CLEAR, ERASE, INPUT) with every single one; transformations: REM / ' / empty filler line at every gap, empty statement at every statement boundary, split of a multi-statement line at every boundary, direct statement over empty / original / larger stored program, direct list vs one-line program; a three-line program entered by 11 direct command sequences (GOTO, GOSUB, ON GOSUB, IF THEN n, RUN n, RESTORE n, DELETE n, CONT) at each of its lines, at all 84 ascending triples of the line numbers 0 1 2 9 10 32768 65527 65528 65529 against the same at 10 20 30".into(),
                 Tier::Thorough => "N<=2 full alphabet with every pair of transformations, N=3 medium single, N=3 core pairs, N=4 core single, N=2 mixed pairs, N=3 mixed single".into(),
             },
             rule: "a case is (program, transformation or pair); distinct_nontrivial = distinct (transformation kind, baseline transcript) pairs".into(),
